@@ -28,6 +28,53 @@ pub struct CriteriaMapper {
     implied_criteria: Vec<CriteriaSet>,
 }
 
+/// Check that a criteria table can be turned into a [`CriteriaMapper`]: no built-in criteria
+/// redefined, not too many criteria, and no criteria which (transitively) implies itself.
+/// Names in `implies` which aren't defined are ignored here (they are reported separately).
+pub fn check_criteria_table(
+    criteria: &SortedMap<CriteriaName, CriteriaEntry>,
+) -> Result<(), String> {
+    for builtin in [SAFE_TO_RUN, SAFE_TO_DEPLOY] {
+        if criteria.contains_key(builtin) {
+            return Err(format!("the built-in criteria '{builtin}' cannot be redefined"));
+        }
+    }
+    if criteria.len() + 2 > MAX_CRITERIA {
+        return Err(format!(
+            "too many criteria ({}, at most {MAX_CRITERIA} are supported)",
+            criteria.len() + 2
+        ));
+    }
+    // Depth-first search with an explicit "on the current path" set.
+    fn visit<'a>(
+        criteria: &'a SortedMap<CriteriaName, CriteriaEntry>,
+        name: &'a str,
+        path: &mut Vec<&'a str>,
+        done: &mut Vec<&'a str>,
+    ) -> Result<(), String> {
+        if done.contains(&name) {
+            return Ok(());
+        }
+        if path.contains(&name) {
+            return Err(format!("criteria '{name}' implies itself"));
+        }
+        path.push(name);
+        if let Some(entry) = criteria.get(name) {
+            for implied in &entry.implies {
+                visit(criteria, implied, path, done)?;
+            }
+        }
+        path.pop();
+        done.push(name);
+        Ok(())
+    }
+    let mut done = Vec::new();
+    for name in criteria.keys() {
+        visit(criteria, name, &mut Vec::new(), &mut done)?;
+    }
+    Ok(())
+}
+
 impl CriteriaMapper {
     pub fn new(criteria: &SortedMap<CriteriaName, CriteriaEntry>) -> CriteriaMapper {
         // Fixed indices for built-in criteria
